@@ -7,8 +7,10 @@ import (
 	"io"
 	"net/http"
 	"sync"
+	"sync/atomic"
 
 	"perkeep.org/pkg/blob"
+	"perkeep.org/pkg/blobserver"
 	"perkeep.org/pkg/client"
 
 	"verif/hs"
@@ -140,5 +142,82 @@ func runPathClient(res *vk.Result, confs []Conf) {
 		if class != "" {
 			res.Violate(sc, "C18|client|path-client-with-have-cache|"+class, fmt.Sprintf("%s: %s", c.Name(), detail), map[string]any{"space": "client-path-havecache", "conf": c.Name()})
 		}
+	}
+}
+
+// failOnceStorage fails the ReceiveBlob calls while fail is set (a transient server-side failure).
+type failOnceStorage struct {
+	blobserver.Storage
+	fail atomic.Bool
+}
+
+func (f *failOnceStorage) ReceiveBlob(ctx context.Context, br blob.Ref, src io.Reader) (blob.SizedRef, error) {
+	if f.fail.Load() {
+		io.Copy(io.Discard, src)
+		return blob.SizedRef{}, hs.ErrInjected
+	}
+	return f.Storage.ReceiveBlob(ctx, br, src)
+}
+
+// failedUploadCase: a client with a have-cache; the server's storage fails the
+// first upload; the retry by the same client must really upload (a failed
+// upload must not be remembered as "the server has it").
+func failedUploadCase(skipStat bool) (class, detail string, err error) {
+	mem := hs.NewMem("bs")
+	sto := &failOnceStorage{Storage: mem}
+	s, err := newHandlerServer("memory", sto)
+	if err != nil {
+		return "", "", err
+	}
+	defer s.closeLight()
+	ctx := context.Background()
+	s.Client.SetHaveCache(&mapHaveCache{m: map[blob.Ref]uint32{}})
+	b := hs.BSchema
+	h := func() *client.UploadHandle {
+		uh := client.NewUploadHandleFromString(string(b.Data))
+		uh.SkipStat = skipStat
+		return uh
+	}
+	sto.fail.Store(true)
+	if _, err := s.Client.Upload(ctx, h()); err == nil {
+		return "failed-upload-acknowledged", "client.Upload returned success although the server's storage refused the blob", nil
+	}
+	sto.fail.Store(false)
+	pr, err := s.Client.Upload(ctx, h())
+	if err != nil {
+		return "retry-error", fmt.Sprintf("retry of the upload after the server recovered: %v", err), nil
+	}
+	if _, ok := mem.Get(b.Ref); !ok {
+		return "retry-acknowledged-not-stored", fmt.Sprintf("after a failed upload the retry returned success (Skipped=%v) but the server does not hold the blob", pr.Skipped), nil
+	}
+	return "ok", "", nil
+}
+
+func runFailedUpload(res *vk.Result) {
+	sc := res.Scenario("client-havecache-failed-upload")
+	sc.Bound = "client with a have-cache, server storage failing the first upload, retry; with and without stat-before-upload"
+	if !vk.Mine(2) {
+		return
+	}
+	for _, skip := range []bool{false, true} {
+		class, detail, err := failedUploadCase(skip)
+		if err != nil {
+			res.EngineError("client-havecache-failed-upload: %v", err)
+			sc.Exhaustive = false
+			continue
+		}
+		sc.Executions++
+		sc.States++
+		sc.Transitions += 2
+		sc.Outcome(fmt.Sprintf("skipStat=%v|%s", skip, class))
+		if class == "ok" {
+			continue
+		}
+		if c2, _, err := failedUploadCase(skip); err != nil || c2 != class {
+			res.EngineError("client-havecache-failed-upload: %s not reproducible", class)
+			sc.Exhaustive = false
+			continue
+		}
+		res.Violate(sc, "C18|client|have-cache-after-failed-upload|"+class, fmt.Sprintf("skipStat=%v: %s", skip, detail), map[string]any{"space": "client-havecache-failed-upload", "skipStat": skip})
 	}
 }
